@@ -140,7 +140,15 @@ func WithVars(vars map[string]any) QueryOption {
 	}
 }
 
-func New(data Map, query string, options ...QueryOption) (*Query, error) {
+func New(data Map, query string, options ...QueryOption) (result *Query, err error) {
+	// building a query already executes parts of it (joins, union branches, CTEs,
+	// derived tables): a panic in there is reported like one during Exec
+	defer func() {
+		if r := recover(); r != nil {
+			result = nil
+			err = panicToError(r)
+		}
+	}()
 	q := &Query{
 		offsetDefinition:    -1,
 		limitDefinition:     -1,
@@ -1806,7 +1814,8 @@ func ExecOrderBy(query *Query, current []any) ([]any, error) {
 func (query *Query) exec() (result any, err error) {
 	defer func() {
 		if r := recover(); r != nil {
-			err = r.(error)
+			result = nil
+			err = panicToError(r)
 		}
 	}()
 	if query.dual {
@@ -1888,6 +1897,14 @@ FINALIZE:
 		query.options.completed()
 	}
 	return rs, nil
+}
+
+// panicToError turns a recovered panic value into an error, whatever its type
+func panicToError(r any) error {
+	if err, ok := r.(error); ok {
+		return err
+	}
+	return fmt.Errorf("%v", r)
 }
 
 func (query *Query) execAndPostProcess() (result any, err error) {
